@@ -118,7 +118,16 @@ def generate(rng, tier):
     # SVG arcs and shapes under affine maps (SVD)
     for _ in range(per):
         g = lambda: rng.uniform(-50, 50)
-        yield both(f'svg.arc {H(g(), g())} {H(g(), g())} {H(10.0 ** rng.uniform(-1, 2), 10.0 ** rng.uniform(-1, 2))} {H(rng.uniform(-7, 7))} {rng.randint(0, 1)} {rng.randint(0, 1)}', 'num', 'svg-arc')
+        # well-conditioned arcs only: when the radii are too small for the chord they are scaled up until the centre sits exactly on the chord, and the
+        # centre is then sqrt(rounding noise) - any two correct backends differ there by ~1e-6 relative (seen: 2.4e-6)
+        fx, fy, tx, ty = g(), g(), g(), g()
+        rot = rng.uniform(-7, 7)
+        hx_, hy_ = (fx - tx) / 2, (fy - ty) / 2
+        x1p, y1p = math.cos(rot) * hx_ + math.sin(rot) * hy_, -math.sin(rot) * hx_ + math.cos(rot) * hy_
+        need = math.hypot(x1p, y1p)
+        rx, ry = need * 10.0 ** rng.uniform(0.2, 1.5), need * 10.0 ** rng.uniform(0.2, 1.5)
+        if need > 0:
+            yield both(f'svg.arc {H(fx, fy)} {H(tx, ty)} {H(rx, ry)} {H(rot)} {rng.randint(0, 1)} {rng.randint(0, 1)}', 'num', 'svg-arc')
         a = [rng.uniform(-3, 3) for _ in range(6)]
         if abs(a[0] * a[3] - a[1] * a[2]) > 0.2:
             yield both(f'shape.affine {H(*a)} ellipse {H(g(), g(), abs(g()) + 1, abs(g()) + 1, rng.uniform(-3, 3))} {H(0.01)}', 'num', 'affine-svd')
